@@ -640,3 +640,5 @@ def replay(case):
         return _replay(case)
     finally:
         _drop_static_root()
+
+MANIFEST['text'] += ' Kinds include header values of equal value and different type, and one URL failing for request-specific reasons with a JSON client.'
